@@ -555,12 +555,18 @@ class Env:
             self.ns[s['uid']] = U.Namespace(s, parent)
         self.specs = {s['uid']: s for s in specs}
         self.nested_done = []   # (op, outcome) of nested calls made during the current operation
+        self.kept = None        # list: the caller keeps (a bounded number of) what it loaded
         self.fns = {}
         self.shared = {}
         self.mount = mount
         self.retained = None    # list: exceptions of failed operations are kept alive
         mdir = mount.dir if mount is not None else None
         self.norm = (lambda m: m.replace(mdir, '<MNT>')) if mdir else None
+
+    def use_loaded(self, v):
+        ops.use_result(v)
+        if self.kept is not None and len(self.kept) < 64:
+            self.kept.append(v)
 
     def build(self, spec_uid, val):
         return U.build_value(self.ns[spec_uid], val)
@@ -709,7 +715,7 @@ def exec_op(env, op, th=None):
     try:
         # (a loaded value belongs to the caller, who changes it in place once it is recorded)
         out, ctx = ops.call(thunk, faults, env.norm, env.retained, graph=(kind == 'load'), nested=nested,
-                            after=ops.use_result if kind == 'load' else None)
+                            after=env.use_loaded if kind == 'load' else None)
     except seam.SimCancel:
         out = {'status': 'cancelled', 'trace': []}
         ctx = None
@@ -774,6 +780,8 @@ def _run_plan(plan, pristine_fp, yatiml_dir, yaml_dir, mount, sched, profile=Fal
     env = Env(plan['specs'], mount)
     if (plan.get('knobs') or {}).get('retain_exc'):
         env.retained = []
+    if (plan.get('knobs') or {}).get('keep_results'):
+        env.kept = []
     violations = []
     history = []
     cheap = cheap_fingerprint_fn()
